@@ -11,6 +11,7 @@ from vlib import gen_pyvalues as GP, keys, ref_ed25519 as R4, ref_grammar as g
 from vlib.ref_canon import canon
 from vlib import cfgunit as _cfgunit
 from vlib.runner import Unit, Violation
+from vlib import interfere as _interfere, interrupt as _interrupt
 
 PROPERTY = "C19"
 LEVEL = "exploration"
@@ -378,4 +379,9 @@ UNITS = [
     _cfgunit.unit_under_config(PROPERTY, 'derive_sign', exclude=()),
     _cfgunit.unit_under_config(PROPERTY, 'malformed', exclude=(), n_cases=40),
     _cfgunit.unit_under_config(PROPERTY, 'conversions', exclude=(), closed_stdout=True, n_cases=30),
+    _interfere.unit_after(PROPERTY, 'malformed', quick=150, thorough=6000),
+    _interfere.unit_after(PROPERTY, 'conversions', quick=150, thorough=6000),
+    _interrupt.unit_interrupted(PROPERTY, 'conversions', quick=18, thorough=450, max_points=150),
+    _interrupt.unit_interrupted(PROPERTY, 'malformed', quick=18, thorough=450, max_points=150),
+    _interrupt.unit_interrupted(PROPERTY, 'derive_sign', quick=18, thorough=450, max_points=150),
 ]
